@@ -302,3 +302,72 @@ def coroutine_calls_awaited(ctx: Context, rule: str, only: tuple[str, ...] | Non
     if not bad_total:
         rep.ob(rule, "async|*|coroutine-calls-awaited", True, "httpcore/", f"all {n} calls of coroutine functions are awaited where they are made")
     rep.floor(rule, "coroutine calls examined", n, 20 if only is None else 1)
+
+
+AWAIT_BENIGN = {
+    ("AsyncHTTP2Connection", "_max_streams"): "all writes after connection init are made by the socket reader under the read lock; the one other write (init, under the init lock) happens before the first read",
+}
+
+
+def await_atomicity_census(ctx: Context, rule: str) -> None:
+    """Async tree: a test on a field of a task-shared object, then a suspension point, then a write of that field, all inside the
+    region guarded by the test, is a test-and-set that other tasks can interleave with - unless the test, the write and every
+    other writer of the field hold a common async lock.  (The sync twin of each site is covered by the lockset census C08.R11.)"""
+    from .c07 import locks_for
+    from .c08 import SHARED_CLASSES
+
+    rep = ctx.rep
+    N = ctx.names("async")
+    L = locks_for(ctx, "async")
+    n = 0
+
+    def fields_in(e: ast.AST) -> set[str]:
+        return {x.attr for x in ast.walk(e) if isinstance(x, ast.Attribute) and isinstance(x.value, ast.Name) and x.value.id == "self" and x.attr.startswith("_")}
+
+    for mod, cn in SHARED_CLASSES:
+        c = N.cls(mod, cn)
+        wl: dict[str, list[frozenset]] = {}
+        for f in c.methods.values():
+            if f.name == "__init__":
+                continue
+            for x in own_nodes(f.node):
+                if isinstance(x, ast.Attribute) and isinstance(x.value, ast.Name) and x.value.id == "self" and not isinstance(x.ctx, ast.Load):
+                    wl.setdefault(x.attr, []).append(frozenset(L.must_hold(x, f)))
+        for f in c.methods.values():
+            if not f.is_async:
+                continue
+            cfg = ctx.cfg(f)
+            for t in own_nodes(f.node):
+                if not isinstance(t, (ast.If, ast.While)):
+                    continue
+                flds = fields_in(t.test)
+                tn = cfg._by_ast.get(id(t))
+                if not flds or not tn:
+                    continue
+                body_ids = {id(x) for s_ in t.body for x in ast.walk(s_)}
+                reach_plain = cfg.reachable([e.dst for e in tn[0].succ if e.kind != "exc"], follow=lambda e: e.kind != "exc", stop=lambda m: m.may_cancel())
+                susp = [m for m in cfg.nodes if m.id in reach_plain and m.may_cancel() and m.ast is not None
+                        and id(m.ast if not isinstance(m.ast, ast.withitem) else m.ast.context_expr) in body_ids]
+                if not susp:
+                    continue
+                after = cfg.reachable([e.dst for s_ in susp for e in s_.succ if e.kind != "exc"], follow=lambda e: e.kind != "exc")
+                done: set[str] = set()
+                for m in cfg.nodes:
+                    if m.id not in after or m.ast is None:
+                        continue
+                    a = m.ast if not isinstance(m.ast, ast.withitem) else m.ast.context_expr
+                    if id(a) not in body_ids or not isinstance(a, (ast.Assign, ast.AugAssign, ast.AnnAssign, ast.Delete, ast.Expr)):
+                        continue
+                    wf = {x.attr for x in ast.walk(a) if isinstance(x, ast.Attribute) and isinstance(x.value, ast.Name) and x.value.id == "self" and not isinstance(x.ctx, ast.Load)}
+                    for F in sorted((wf & flds) - done):
+                        done.add(F)
+                        n += 1
+                        allw = frozenset.intersection(*wl[F]) if wl.get(F) else frozenset()
+                        prot = frozenset(L.must_hold(t.test, f)) & frozenset(L.must_hold(a, f)) & allw
+                        why = AWAIT_BENIGN.get((c.name, F))
+                        ok = bool(prot) or why is not None
+                        rep.ob(rule, fkey("async", f, f"test-suspend-set:{F}:{norm(t.test)[:40]}"), ok, where(f, t),
+                               (f"`{ast.unparse(t.test)[:50]}` ... suspension ... write of {F}: one critical section of {sorted(x.split('.')[-1] for x in prot)}" if prot else f"accepted: {why}") if ok else
+                               f"`{ast.unparse(t.test)[:60]}` is tested, then `{susp[0].text()[:50]}` suspends, then `{ast.unparse(a)[:50]}` writes {F} - with no async lock common to the test, the write and "
+                               f"the other writers of {F}: another task can run the same test-and-set in between (both then act on the stale answer)")
+    rep.floor(rule, "test / suspend / set sequences on task-shared fields (async)", n, 4)
